@@ -249,33 +249,40 @@ func c14Copies(c *Ctx, a *sketchAnchors) {
 			continue
 		}
 		n++
-		// (a) deep origins
-		var bad []string
-		for l := range c.Mod.DeepOrigins(f) {
-			if !x.allow(l) {
-				bad = append(bad, l)
-			}
-		}
-		sort.Strings(bad)
-		c.R.check(len(bad) == 0, rule, tname+".Copy/deep-fresh", shortFn(f), c.fpos(f), "everything reachable from the copy is freshly allocated (the proven-immutable mapping excepted)",
-			firstNonEmpty(strings.Join(bad, " "), "origins: "+strings.Join(c.Mod.DeepOrigins(f).sorted(), " ")+" (allowed)"))
-		// (b) field coverage and (c) dynamic type
 		paths, _ := exec(c, f, nil, 2)
-		for _, fld := range flatFields(x.t, "") {
+		// per path: the final value of every field of the returned object (last store wins; a whole-struct
+		// copy `*r = *s` defines every field from the receiver's same field)
+		fields := flatFields(x.t, "")
+		fresh := true
+		var badOrig []string
+		for _, fld := range fields {
 			ok := len(paths) > 0
 			found := ""
 			for _, p := range paths {
-				v := copyFieldValue(p, fld.path)
+				v := finalFieldValue(p, fld.path, fields)
 				if v == nil {
 					ok = false
-					found = "field not defined by the copy"
+					found = "field not defined by the copy on path [" + p.String() + "]"
 					break
 				}
 				found = v.Key()
 				if !isRefLike(fld.typ) {
-					// scalar: must be the receiver's same field
 					if !termIsRecvPath(v, fld.path) {
 						ok = false
+					}
+					continue
+				}
+				// reference-typed field: everything reachable from it must be fresh
+				var origins []string
+				if v.V == nil {
+					origins = []string{"p0." + strings.Join(fld.path, ".")} // carried over by a whole-struct copy
+				} else {
+					origins = c.Mod.DeepOriginsOf(f, v.V).sorted()
+				}
+				for _, l := range origins {
+					if !x.allow(l) {
+						fresh = false
+						badOrig = append(badOrig, fmt.Sprintf("%s ← %s on path [%s]", strings.Join(fld.path, "."), l, p.String()))
 					}
 				}
 			}
@@ -285,6 +292,20 @@ func c14Copies(c *Ctx, a *sketchAnchors) {
 			}
 			c.R.check(ok, rule, tname+".Copy/field/"+strings.Join(fld.path, "."), shortFn(f), c.fpos(f), exp, found)
 		}
+		// results that are not a local object (e.g. `return otherConstructor(…)`): function-level origins
+		for _, p := range paths {
+			if len(p.RetT) == 1 && p.RetT[0].Op != "alloc" {
+				for l := range c.Mod.DeepOrigins(f) {
+					if !x.allow(l) {
+						fresh = false
+						badOrig = append(badOrig, l)
+					}
+				}
+			}
+		}
+		sort.Strings(badOrig)
+		c.R.check(fresh, rule, tname+".Copy/deep-fresh", shortFn(f), c.fpos(f), "on every path, everything reachable from each reference-typed field of the copy is freshly allocated (the proven-immutable mapping excepted)",
+			firstNonEmpty(strings.Join(uniqStrs(badOrig), "; "), "all reference fields fresh on "+fmt.Sprint(len(paths))+" path(s)"))
 		okT := len(paths) > 0
 		foundT := ""
 		for _, p := range paths {
@@ -403,4 +424,65 @@ func c14ChangeMapping(c *Ctx, a *sketchAnchors) {
 		c.R.check(len(bad) == 0, rule, "(*Exact).ChangeMapping/result-not-aliasing-receiver", shortFn(fe), c.fpos(fe),
 			"nothing reachable from the result originates in the receiver (statistics are copied)", firstNonEmpty(strings.Join(bad, " "), "origins: "+strings.Join(c.Mod.DeepOrigins(fe).sorted(), " ")))
 	}
+}
+
+func uniqStrs(in []string) []string {
+	var out []string
+	seen := map[string]bool{}
+	for _, x := range in {
+		if !seen[x] {
+			seen[x] = true
+			out = append(out, x)
+		}
+	}
+	return out
+}
+
+// finalFieldValue: the value the field result.<path> holds when path p returns. Handles field-wise
+// initialisation (composite literals) and whole-struct stores (`*r = *s`, `r.Embedded = s.Embedded`).
+func finalFieldValue(p *Path, path []string, all []flatField) *Term {
+	if len(p.RetT) == 0 {
+		return nil
+	}
+	r := p.RetT[0]
+	var val *Term
+	for _, e := range p.Effects {
+		if e.Kind != "store" {
+			continue
+		}
+		// address = field chain q over r, with q a prefix of path
+		var q []string
+		x := e.Addr
+		for x.Op == "field" && !sameVal(x, r) {
+			q = append([]string{x.Sym}, q...)
+			x = x.Args[0]
+		}
+		if !sameVal(x, r) || len(q) > len(path) {
+			continue
+		}
+		pref := true
+		for i := range q {
+			if q[i] != path[i] {
+				pref = false
+			}
+		}
+		if !pref {
+			continue
+		}
+		if len(q) == len(path) {
+			val = e.Val
+			continue
+		}
+		// whole-struct store covering this field: the field of the stored struct value
+		src := e.Val
+		if src.Op == "load" {
+			src = src.Args[0]
+		}
+		t := src
+		for _, name := range path[len(q):] {
+			t = mk("field", name, nil, t)
+		}
+		val = t
+	}
+	return val
 }
